@@ -1,6 +1,6 @@
 SPECIFICATION TSpec
 CONSTANTS
-  Plans <- TPlans
+  Plans <- NoPlans
   Parts = 2
 INVARIANTS TypeOK StatusOnlyIfComplete AlwaysPrefix RefusedNoRecord RefusalDetectable MustRefuse HeaderReflects DoneComplete
 POSTCONDITION Accepted
